@@ -41,6 +41,13 @@ class SymMatrix(SV):
             return Builtin("Matrix.has", lambda I, a, k: matrix_has(I, self, a[0]))
         return NotImplemented
 
+    def pvc_getitem(self, I, key):
+        if isinstance(key, tuple) and len(key) == 2:
+            r, c = (z3.IntVal(k) if isinstance(k, int) else to_int(k) for k in key)
+            I.raise_if(z3.Not(z3.And(r >= 0, r < to_int(self.rows), c >= 0, c < to_int(self.cols))), "IndexError")  # (negative indices: not modelled)
+            return ExprV(self.cell(r, c))
+        raise Unsupported("Matrix[...] with something else than (row, column)")
+
     def pvc_iter(self, I):
         rm = RowMajor(self)
         I.path.ghost.setdefault("row_major", []).append(rm)
@@ -305,10 +312,18 @@ def matrix_has(I, m, what):
     b = z3.Const(P.names.fresh("has_unevaluated_derivative"), z3.BoolSort())
     r, c = z3.Int("hs!r"), z3.Int("hs!c")
     body = z3.Implies(z3.And(r >= 0, r < to_int(m.rows), c >= 0, c < to_int(m.cols)), closed_f(m.cell(r, c)))
-    try:
-        q = z3.ForAll([r, c], body, patterns=[m.cell(r, c)])
-    except z3.Z3Exception:
-        q = z3.ForAll([r, c], body)
+    def concrete(v):
+        v = z3.simplify(to_int(v)) if not isinstance(v, int) else z3.IntVal(v)
+        return v.as_long() if z3.is_int_value(v) else None
+
+    nr, nc = concrete(m.rows), concrete(m.cols)
+    if nr is not None and nc is not None and nr * nc <= 16:
+        q = z3.And(*[closed_f(m.cell(z3.IntVal(a), z3.IntVal(bb))) for a in range(nr) for bb in range(nc)]) if nr * nc else z3.BoolVal(True)
+    else:
+        from z3 import z3util
+
+        names = {str(v) for v in z3util.get_vars(m.cell(r, c))}
+        q = z3.ForAll([r, c], body, patterns=[m.cell(r, c)]) if {"hs!r", "hs!c"} <= names else z3.ForAll([r, c], body)
     P.facts.append(z3.Implies(z3.Not(b), q))
     P.ghost.setdefault("no_closed_form", []).append(b)  # (a caller that inlines the helper sees the same refusal condition)
     return SBool(b)
